@@ -50,8 +50,8 @@ def exK : Key → Prop := fun k => k = [97] ∨ k = [98]
 def exHash : Key → Nat := fun k => k.length * 1000 + (k.headD 0).toNat
 def exOps : List Op := [
   .set [97] [1,2,3] 0 0 100 256, .set [98] [9] 7 0 101 256, .get [97], .set [97] [4] 1 5 102 256, .info [97],
-  .flush, .delete [98] 256, .get [98], .set [98] [5,5] 0 0 103 256, .incr [97] 3 256, .set [97] [52,50] 516 0 104 256,
-  .incr [97] 8 256, .get [97], .info [98]]
+  .flush, .delete [98] 256 0, .get [98], .set [98] [5,5] 0 0 103 256, .incr [97] 3 256 0, .set [97] [52,50] 516 0 104 256,
+  .incr [97] 8 256 0, .get [97], .info [98]]
 example : InjOn exHash exK := by
   intro a b ha hb _; rcases ha with rfl | rfl <;> rcases hb with rfl | rfl <;> simp_all [exHash]
 example : ∀ op ∈ exOps, OpOK exK 5 op := by
